@@ -131,6 +131,20 @@ def task_cutoff(ctx):
     ctx.assume_note("shape-bounded: batch [O,H,H],[H,H,pad]; coordinates (incl. the padding slot's) and the cutoff are symbolic")
 
 
+def replay_default_cutoff(model):
+    """real code: settings WITHOUT pair_outer_cutoff, two H2 molecules 150 A apart in one 'molecule': every one of the 6 atom pairs
+    must be listed (the default cutoff drops no interaction at any distance)."""
+    import torch
+    from seqm.seqm_functions.constants import Constants
+    from seqm.Molecule import Molecule
+
+    torch.set_default_dtype(torch.float64)
+    params = {"method": "AM1", "scf_eps": 1e-7, "scf_converger": [1], "sp2": [False, 1e-5], "elements": [0, 1], "learned": [], "eig": True}
+    mol = Molecule(Constants(), params, torch.tensor([[[0.0, 0, 0], [0.74, 0, 0], [150.0, 3.0, 1.0], [150.74, 3.0, 1.0]]]), torch.tensor([[1, 1, 1, 1]]))
+    n = int(len(mol.idxi))
+    return {"reproduced": n != 6, "pairs_listed": n, "pairs_expected": 6, "largest_distance_A": 150.8}
+
+
 def task_default_cutoff(ctx):
     """default cutoff: Parser.__init__ reads pair_outer_cutoff with default 1e10 (Angstrom): nothing is dropped below 1e10 A."""
     import seqm.basics as B
@@ -143,7 +157,7 @@ def task_default_cutoff(ctx):
 
     ex = ctx.explore(thunk, name="Parser.__init__")
     v = ex.paths[0].value
-    ctx.prove("default-cutoff=1e10", S(v) == S(Fraction(10) ** 10))
+    ctx.prove("default-cutoff=1e10", S(v) == S(Fraction(10) ** 10), replay=replay_default_cutoff)
     import seqm.seqm_functions.constants as C
 
     ctx.prove("overlap-cutoff-documented (40 bohr; dropped terms < e^-40)", S(E.frac_of_float(C.overlap_cutoff)) == 40)
